@@ -147,7 +147,7 @@ def impl(c):
         if isinstance(n, str): return n
         return '%d %s' % (n, vu.convert_version_to_str(n))
     if op == 'order':
-        return '%d %d' % (vu.convert_version_to_int(tuple(c['a'])), vu.convert_version_to_int(tuple(c['b'])))
+        return '%s %s' % (_call(vu.convert_version_to_int, tuple(c['a'])), _call(vu.convert_version_to_int, tuple(c['b'])))
     if op == 'to_int_str':
         return str(_call(vu.convert_version_to_int, c['s']))
     if op == 'to_tuple':
@@ -165,30 +165,12 @@ def impl(c):
         try: return str(vu.is_compatible(c['req'], c['cur'], same_major=c['sm']))
         except Exception as e: return _cls(e)
     if op == 'pred':
-        # R: what VersionPredicate.__init__ extracted — the (operator, version text) pairs — or None when it raised
         try:
             p = vu.VersionPredicate(c['p'])
         except Exception as e:
-            # which stage failed: the implementation's own regex on some part, or the version library
-            rx = []
-            for part in c['p'].split(','):
-                m = vu.VersionPredicate._PREDICATE_MATCH.match(part)
-                if not m: rx = None; break
-                rx.append('%s %s' % m.groups())
-            return 'R:%s F:init:%s' % ('None' if rx is None else '|'.join(rx), _cls(e))
-        # the parsed pairs as the object holds them: operator text + the ORIGINAL version text is not kept by the object,
-        # so re-derive the text with the implementation's regex and check it round-trips to the stored Version
-        rx = []
-        for part, (cond, ver) in zip(c['p'].split(','), p.pred):
-            m = vu.VersionPredicate._PREDICATE_MATCH.match(part)
-            txt = m.group(2) if m else '?'
-            import packaging.version
-            if not m or m.group(1) != cond or packaging.version.Version(txt) != ver: txt = '?MISMATCH'
-            rx.append('%s %s' % (cond, txt))
-        if len(p.pred) != len(c['p'].split(',')): rx.append('?LENGTH')
-        R = '|'.join(rx)
-        try: return 'R:%s F:%s' % (R, p.satisfied_by(c['v']))
-        except Exception as e: return 'R:%s F:%s' % (R, _cls(e))
+            return 'init:' + _cls(e)
+        try: return str(p.satisfied_by(c['v']))
+        except Exception as e: return _cls(e)
     raise KeyError(op)
 
 def encode(c):
@@ -205,12 +187,19 @@ def encode(c):
     return None
 
 def decode(c, out):
-    return out
-
-def project(c, io):
     if c['op'] == 'pred':
-        return io[2:io.index(' F:')]
-    return io
+        # the model parses the predicate text; the version library (the contract instance) supplies parsing and comparison
+        import packaging.version as pv
+        if out == 'None': return 'init:EXN:ValueError'
+        pairs = []
+        for item in out.split('|'):
+            o, _, text = item.partition(' ')
+            try: pairs.append((o, pv.Version(text)))
+            except ValueError: return 'init:EXN:ValueError'
+        try: v = pv.Version(c['v'])
+        except ValueError: return 'EXN:ValueError'
+        return str(all(_M[o](v, x) for o, x in pairs))
+    return out
 
 _M = {'<': operator.lt, '<=': operator.le, '==': operator.eq, '>': operator.gt, '>=': operator.ge, '!=': operator.ne}
 _BAD = re.compile(r'[^\d\s+\-_]')
@@ -231,6 +220,7 @@ def oracle(c, io):
                 return 'round trip of %r gives %r' % (v, io)
     elif op == 'order':
         a, b = c['a'], c['b']
+        if 'EXN' in io: return 'convert_version_to_int raised on components within 0..999: %r, %r -> %s' % (a, b, io)
         na, nb = map(int, io.split())
         if ((na > nb) - (na < nb)) != ((a > b) - (a < b)):
             return 'order of %r,%r not preserved: %d,%d' % (a, b, na, nb)
@@ -238,14 +228,16 @@ def oracle(c, io):
         # an alpha/beta/rc suffix (marker + digits) on the last component is ignored
         a, b = io.split(' ')
         if a != b: return 'suffix %r not ignored on %r: %s vs %s' % (c['sfx'] + c['d'] + c['tail'], c['v'], a, b)
-        if c['v'] and all(x >= 0 for x in c['v']) and a != str(_fold(c['v'])):
+        if c['v'] and all(0 <= x <= 999 for x in c['v']) and a != str(_fold(c['v'])):
             return 'convert_version_to_int(%r) = %s' % (c['v'], a)
     elif op == 'to_int_str':
         s = c['s']
         m = re.fullmatch(r'(\d+(?:\.\d+)*)((?:a|alpha|b|beta|rc)\d+)?', s, re.A)
         if m:
-            want = _fold([int(x) for x in m.group(1).split('.')])
-            if io != str(want): return 'convert_version_to_int(%r) = %s, expected %d' % (s, io, want)
+            comps = [int(x) for x in m.group(1).split('.')]
+            want = _fold(comps)
+            # the property speaks about components in 0..999; beyond that only "no exception other than ValueError" is demanded
+            if all(x <= 999 for x in comps) and io != str(want): return 'convert_version_to_int(%r) = %s, expected %d' % (s, io, want)
         else:
             parts = s.split('.')
             # a component with a character int() can never accept raises ValueError; in the last component
@@ -271,14 +263,10 @@ def oracle(c, io):
             try: pep440.parse(m.group(2))
             except ValueError: ok = False; break
             preds.append((m.group(1), m.group(2)))
-        R = io[2:io.index(' F:')]
-        io = io[io.index(' F:') + 3:]
         if not ok:
             return None if io == 'init:EXN:ValueError' else 'malformed predicate %r gives %s' % (c['p'], io)
         if io.startswith('init:'):
             return 'well-formed predicate %r gives %s' % (c['p'], io)
-        if R != '|'.join('%s %s' % x for x in preds):
-            return 'predicate %r parsed as %r' % (c['p'], R)
         try: pep440.parse(c['v'])
         except ValueError:
             return None if io == 'EXN:ValueError' else 'satisfied_by(%r) on an invalid version gives %s' % (c['v'], io)
